@@ -238,6 +238,13 @@ def findings():
         for fn in sorted(os.listdir(os.path.join(VERIF, "findings"))):
             path = os.path.join(VERIF, "findings", fn)
             env = dict(os.environ)
+            if fn.startswith("open-"):
+                # replay of a listed open finding: reproduced on the current tree as KNOWN-FINDING, exit 0
+                r = subprocess.run([os.path.join(VERIF, "check"), "--replay", path], capture_output=True, text=True, env=env)
+                ok = r.returncode == 0 and r.stdout.startswith("KNOWN-FINDING")
+                res.append({"id": fn, "property": json.load(open(path))["property"], "status": "CAUGHT" if ok else "MISSED", "open": True})
+                print(f"{fn:60s} open known finding, current tree: {'KNOWN-FINDING (exit 0)' if ok else 'NOT REPRODUCED'}")
+                continue
             new = subprocess.run([os.path.join(VERIF, "check"), "--replay", path], capture_output=True, text=True, env=env).stdout.startswith("VIOLATION")
             env["QCOSIM_REPO_SRC"] = os.path.join(wt, "src")
             old = subprocess.run([os.path.join(VERIF, "check"), "--replay", path], capture_output=True, text=True, env=env).stdout.startswith("VIOLATION")
